@@ -123,6 +123,7 @@ type report struct {
 	Inconclusive       string                   `json:"inconclusive,omitempty"`
 	WallMs             int64                    `json:"wall_ms"`
 	FirstPublishTopics int                      `json:"first_publish_topics"`
+	FirstUseRounds     int                      `json:"first_use_rounds"`
 }
 
 func (r *report) violate(key string, run int, nodeID int64, what string) {
@@ -1031,6 +1032,111 @@ func firstPublishers(seed int64, rep *report, workdir string, ntopics, npub int)
 	return ""
 }
 
+// firstUse: a topic nobody has used before is used for the first time by a subscriber and several publishers at the same
+// moment -- over and over, a fresh name each time.  Once the SUB and the PUBs have been answered OK, one more message is
+// published: the subscriber gets it (C01: the channel existed when it was published).
+func firstUse(rep *report, workdir string, rounds, npub int) string {
+	dir := filepath.Join(workdir, "ids-firstuse")
+	os.RemoveAll(dir)
+	if err := os.MkdirAll(dir, 0o755); err != nil {
+		return err.Error()
+	}
+	defer os.RemoveAll(dir)
+	nd, err := startNode(dir, 9)
+	if err != nil {
+		return "start nsqd: " + err.Error()
+	}
+	defer nd.stop(10 * time.Second)
+	pubs := make([]*tcpConn, npub)
+	for i := range pubs {
+		c, err := dialV2(nd.tcp, map[string]interface{}{"client_id": fmt.Sprintf("fu-pub-%d", i), "hostname": "verif",
+			"feature_negotiation": false, "heartbeat_interval": -1})
+		if err != nil {
+			return "publisher: " + err.Error()
+		}
+		c.c.SetDeadline(time.Time{})
+		pubs[i] = c
+		defer c.c.Close()
+	}
+	for r := 0; r < rounds; r++ {
+		topic := fmt.Sprintf("c01u_%d", r)
+		sub, err := dialV2(nd.tcp, map[string]interface{}{"client_id": fmt.Sprintf("fu-sub-%d", r), "hostname": "verif",
+			"feature_negotiation": false, "heartbeat_interval": 30000, "output_buffer_timeout": 25})
+		if err != nil {
+			return "subscriber: " + err.Error()
+		}
+		sub.c.SetDeadline(time.Time{})
+		var start, ready int32
+		oks := make([]bool, npub+1)
+		var wg sync.WaitGroup
+		spin := func() {
+			atomic.AddInt32(&ready, 1)
+			for atomic.LoadInt32(&start) == 0 {
+			}
+		}
+		wg.Add(1)
+		go func() {
+			defer wg.Done()
+			spin()
+			ft, data, err := sub.roundTrip(fmt.Sprintf("SUB %s ch\n", topic), nil)
+			oks[npub] = err == nil && ft == 0 && string(data) == "OK"
+		}()
+		for i, c := range pubs {
+			wg.Add(1)
+			go func(i int, c *tcpConn) {
+				defer wg.Done()
+				spin()
+				ft, data, err := c.roundTrip("PUB "+topic+"\n", lenPrefixed([]byte(fmt.Sprintf("fu.%d.%d", r, i))))
+				oks[i] = err == nil && ft == 0 && string(data) == "OK"
+			}(i, c)
+		}
+		for atomic.LoadInt32(&ready) < int32(npub+1) {
+			time.Sleep(50 * time.Microsecond)
+		}
+		atomic.StoreInt32(&start, 1)
+		wg.Wait()
+		for i, ok := range oks {
+			if !ok {
+				sub.c.Close()
+				return fmt.Sprintf("first use of %s: request %d was not answered OK", topic, i)
+			}
+		}
+		last := fmt.Sprintf("fu.%d.last", r)
+		if ft, data, err := pubs[0].roundTrip("PUB "+topic+"\n", lenPrefixed([]byte(last))); err != nil || ft != 0 || string(data) != "OK" {
+			sub.c.Close()
+			return "first use: the last publish was not answered OK"
+		}
+		sub.w.WriteString("RDY 20\n")
+		sub.w.Flush()
+		sub.c.SetReadDeadline(time.Now().Add(5 * time.Second))
+		got := false
+		for !got {
+			ft, data, err := readFrame(sub.r)
+			if err != nil {
+				break
+			}
+			if ft == 2 && len(data) > 26 {
+				if string(data[26:]) == last {
+					got = true
+				}
+				sub.w.WriteString("FIN ")
+				sub.w.Write(data[10:26])
+				sub.w.WriteByte('\n')
+				sub.w.Flush()
+			}
+		}
+		sub.c.Close()
+		rep.FirstUseRounds++
+		if !got {
+			rep.violate("first-use-lost", -1, 9, fmt.Sprintf("topic %s was used for the first time by one SUB and %d PUBs at the same moment; all were answered OK; a message published after that (%q, answered OK) did not reach the subscriber within 5 s", topic, npub, last))
+			if rep.ViolationCounts["first-use-lost"] >= 3 {
+				break
+			}
+		}
+	}
+	return ""
+}
+
 func main() {
 	seed := flag.Int64("seed", 1, "seed")
 	runs := flag.Int("runs", 6, "daemon lifetimes")
@@ -1045,6 +1151,7 @@ func main() {
 	repPath := flag.String("report", "ids.json", "report")
 	workdir := flag.String("workdir", "", "scratch directory")
 	firstTopics := flag.Int("first-topics", 200, "pre-created topics whose first publishes come from several connections at once")
+	firstUseRounds := flag.Int("first-use", 0, "only: fresh topics used for the first time by a subscriber and publishers at once (rounds)")
 	flag.Parse()
 	if *workdir == "" {
 		d, err := os.MkdirTemp("", "ids-")
@@ -1066,7 +1173,13 @@ func main() {
 	rng := rand.New(rand.NewSource(*seed))
 	t0 := time.Now()
 	var inconclusive []string
-	if inc := firstPublishers(*seed, rep, *workdir, *firstTopics, 6); inc != "" {
+	if *firstUseRounds > 0 {
+		// only this scenario (C01)
+		if inc := firstUse(rep, *workdir, *firstUseRounds, 5); inc != "" {
+			inconclusive = append(inconclusive, inc)
+		}
+		*runs = 0
+	} else if inc := firstPublishers(*seed, rep, *workdir, *firstTopics, 6); inc != "" {
 		inconclusive = append(inconclusive, inc)
 	}
 	for run := 0; run < *runs; run++ {
